@@ -22,7 +22,7 @@ Proof.
     + cbn [inOpen discard stack with_inOpen with_stack] in E. inversion E; subst.
       cbn [inOpen discard stack vocab rootmode with_inOpen with_stack]. repeat split; auto. intros e [].
     + destruct (ty =? tok_CLOSE).
-      { destruct (Z.ltb_spec 0 (discard c)); [|lia]. inversion E; subst. cbn [inOpen discard stack vocab rootmode with_stack].
+      { rewrite IO in E. cbn [andb] in E. destruct (Z.ltb_spec 0 (discard c)); [|lia]. inversion E; subst. cbn [inOpen discard stack vocab rootmode with_stack].
         repeat split; auto; try lia. intros e []. }
       assert (same : forall es0, Ok' c es0 = Ok' c' es -> es0 = [] ->
                 stack c' = stack c /\ inOpen c' = false /\ discard c' = discard c + 0 /\ vocab c' = vocab c /\ rootmode c' = rootmode c /\ pongs_only es).
